@@ -23,7 +23,8 @@ def main():
     res = {}
     try:
         for pid in ids:
-            p = subprocess.run([sys.executable, os.path.join(VERIF, "vf", "check.py"), pid, "--tier", tier], stdout=subprocess.PIPE, stderr=subprocess.STDOUT, cwd=VERIF)
+            p = subprocess.run([sys.executable, os.path.join(VERIF, "vf", "check.py"), pid, "--tier", tier], stdout=subprocess.PIPE, stderr=subprocess.STDOUT, cwd=VERIF, stdin=subprocess.DEVNULL,
+                               env=dict(os.environ, KV_EVIDENCE_DIR=os.path.join(VERIF, "scratch", "matrix_evidence")))
             out = p.stdout.decode(errors="replace")
             keys = [l.strip() for l in out.split("\n") if l.strip().startswith("key=")]
             res[pid] = (p.returncode, keys[:6], out.strip().split("\n")[-1][:200])
